@@ -165,6 +165,9 @@ func genFileCase(r *rng.R, fx []fixture) fileCase {
 		return fileCase{Kind: "genmut", Seed: r.U64() | 1, Opts: randMask(r), NoOpts: r.Chance(2, 3)}
 	case pick < 84:
 		return fileCase{Kind: "gentext", Seed: r.U64() | 1, Opts: randMask(r), NoOpts: r.Chance(1, 2)}
+	case pick < 92:
+		// a file valid only under the option set stored on it (file, batches and, for some variants, records)
+		return fileCase{Kind: "needsopts", Seed: r.U64() | 1, NoOpts: true}
 	default:
 		return fileCase{Kind: "api", Seed: r.U64() | 1, Opts: randMask(r), NoOpts: r.Chance(1, 3)}
 	}
